@@ -610,6 +610,11 @@ func (t *c8tree) calls(r *gen.Rng, budget int) []c8call {
 				out = append(out, c8call{start: s, path: p, intent: present(n), idesc: "present node, ../ steps from another node", stream: "dotdot"})
 			}
 		}
+		// 4b. one ../ from a list entry leads to the list selection
+		if n.kind == "row" && r.Chance(1, 3) {
+			lst := &c8node{steps: append(append([]c8step{}, n.steps[:len(n.steps)-1]...), c8step{idx: n.steps[len(n.steps)-1].idx, kid: n.s}), kind: "list", s: n.s}
+			out = append(out, c8call{start: n, path: "../", intent: present(lst), idesc: "../ from a list entry: the list", stream: "dotdot"})
+		}
 		// 5. query parameters: navigation ignores read filters, the same node is found
 		if r.Chance(1, 4) {
 			q := gen.Pick(r, []string{"?depth=1", "?fields=zz", "?content=config", "?fc.max-node-count=1", "?with-defaults=trim", "?depth=1&fields=zz"})
@@ -759,6 +764,7 @@ func (t *c8tree) negativeCalls(r *gen.Rng, starts []*c8node) []c8call {
 func C08(ctx *core.Ctx) error {
 	ctx.Imports = "Val.Model Tree.Schema Tree.Editor Tree.Find Check.C08Check"
 	ctx.Rule = "table = one generated schema (containers, lists in lists, 1-2 keys of string/int/bool/enum types, choices incl. nested, config false sub-trees, prefix equal to or different from the module name) and data tree whose string keys are built from fragments containing / , = % + space ? # : .. non-ASCII and invalid UTF-8; finds = every node of the tree (sampled when large; list entries always) x start selection (root, an ancestor, another node via ../) x spelling (canonical, lower-case/over/minimal escaping, + for space, module-qualified segments, trailing slash, query parameters) plus absent containers/lists/keys, unknown names and malformed paths; observed: nil/NotFound/other error/panic, sel.Path as schema positions, Key(), Path.String(), content exported through a capturing reference store, re-find of the rendered path, write callbacks; non-trivial = tables with at least one list entry"
+	ctx.ShardMax = 110000 // several shards classify in parallel
 	r := gen.New(ctx.Seed)
 	trees := ctx.Scale(9, 200)
 	budget := ctx.Scale(48, 120)
